@@ -142,6 +142,12 @@ class Hist(Scenario):
                 with ctx.impl(f"op{i} update_variable"):
                     sim.update_variable(names[0], v)
                 y_cur = [v] + list(y_cur[1:])
+            elif op == "UW":
+                # an override of the last variable (a second, different variable in two-variable models)
+                v = ctx.real(f"yw{i}")
+                with ctx.impl(f"op{i} update_variable (last variable)"):
+                    sim.update_variable(names[-1], v)
+                y_cur = list(y_cur[:-1]) + [v]
             elif op == "CL":
                 with ctx.impl(f"op{i} clear_results"):
                     sim.clear_results()
@@ -250,6 +256,9 @@ def scenarios(tier, seed):
             scs.append(sc_)
     for h in (("PR",), ("PR", "S1"), ("S1", "UP", "PR"), ("S1", "UP", "PR", "S1"), ("TC2", "UP", "PR", "TC2"), ("S1", "PR", "UV", "S1"), ("S1", "UP", "UV", "PR")):
         scs.append(Hist("decay", h))
+    # two overrides of different variables in a row: both apply
+    for h in (("S1", "UV", "UW", "S1"), ("S1", "UW", "UV", "TC2"), ("UV", "UW", "S1"), ("TC2", "UV", "UP", "UW", "S1")):
+        scs.append(Hist("chain", h))
     # minimal histories for constructs with open findings (kept out of the composites above)
     for h in (("SS",), ("S1", "SS"), ("SS", "S1"), ("UV", "SS"), ("S1", "SS", "S1"), ("S1", "UV", "SS"), ("SS", "TC2")):
         scs.append(Hist("decay", h))
